@@ -59,7 +59,10 @@ CLAIMS = {
         note="Trusted: Lean kernel; Peg.lean's re-implementation of nom's combinators; tools/translate.py; the hand-written "
              "abstraction CST->items (Infoset.lean) and checks (XmlDoc.lean), tied by `accept`/`parse`. Constraints not yet "
              "stated as theorems: '--' in comments, '<' in attribute-value literals (grammar classes, covered by the tie). "
-             "Known findings name-lax, entity-wfc.",
+             "Known findings name-lax, entity-wfc. The specification side of the monitor is the REVIEWED grammar (tools/ref/xml.json) with "
+             "the repairs of the recorded findings - it does not move when the source moves, so a grammar change that is still a "
+             "recognised combinator shape (and is therefore absorbed by the translated model) is caught as a difference between the "
+             "parser and the reviewed grammar on a concrete document.",
         technique="Lean 4 proof (generic PEG soundness by induction on fuel, inversion on the generated grammar) + translator + differential mutants",
         ref="DESIGN.md section 6 C02"),
     "C04": dict(
@@ -79,7 +82,11 @@ CLAIMS = {
              "model. Kernel-checked so far: what a character reference denotes for every number, that the reported items are an "
              "abstraction of one derivation tree spelling exactly the consumed text, determinism. The completeness statement "
              "`parseDoc (render st d) = ok (denote d, [])` is stated and not yet proved (partial).",
-        note="Partial proof; raw view only so far (merged-text view pending). Oracle = tools/gen/xmlgen.py denote.",
+        note="Partial proof; raw view only so far (merged-text view pending). Oracle = tools/gen/xmlgen.py denote. Second oracle for "
+             "acceptance: the REVIEWED grammar (tools/ref/xml.json, committed; regenerated into Gen/XmlGrammarRef.lean on every run): "
+             "random derivations of it and of its parts, with keyword-prefixed names and one-character neighbours, must be accepted by "
+             "the real parser whenever the model over the reviewed grammar accepts them. The reviewed snapshot is updated by hand "
+             "(tools/translate.py --snapshot) after a grammar-changing fix: commit has been read against the Recommendation.",
         technique="Lean 4 proof (partial) + translator + differential correspondence against model and denotation oracle",
         ref="DESIGN.md section 6 C01"),
     "C03": dict(
@@ -147,7 +154,9 @@ CLAIMS = {
              "derivation of the layered grammar generated from the source that spells the whole input. The completeness direction (every "
              "spelling parses to the same AST) is stated and not proved (partial); it is covered by the tie: every generated AST in 6 "
              "spellings must give one result on the real code, equal to the model's, plus fixed precedence/associativity/node-type cases.",
-        note="Partial proof (see text). Trusted: Lean kernel, translator, the abstraction CST->AST (Ast.lean), spelling generator.",
+        note="Partial proof (see text). Trusted: Lean kernel, translator, the abstraction CST->AST (Ast.lean), spelling generator. "
+             "Reviewed expression grammar (tools/ref/xpath.json) as reference: derivations of it and their one-character neighbours must "
+             "be read (error class and value) as the model over the reviewed grammar reads them.",
         technique="Lean 4 proof (partial) + translator + metamorphic differential correspondence over spellings",
         ref="DESIGN.md section 6 C08"),
     "C09": dict(
